@@ -1880,6 +1880,11 @@ class Block:
               all(shape_of(to_hard_node(a.tree[i])) == shape_of(to_hard_node(b.tree[i])) and
                   all(a.legs[p].s == b.legs[q].s for p, q in zip(leaves(a.tree[i]), leaves(b.tree[i])))
                   for i in range(a.ndim))]
+        if state.yp is not None:
+            # legs produced by an earlier block() ('s' histories) look elementary to the model; yastn only blocks members whose legs have
+            # the same fusion history, so this is read off the live tensors
+            hx = [l.history() for l in state.yp[x].get_legs()]
+            ys = [j for j in ys if [l.history() for l in state.yp[j].get_legs()] == hx]
         if not ys:
             raise Skip()
         k = d.draw(st.integers(1, min(3, len(ys))))
